@@ -135,7 +135,7 @@ var specs = map[string]spec{
 		Real: []string{"nbhttp.Response / Parser / BodyReader / ServerProcessor, websocket.Conn, nbhttp.Engine, nbio.Engine / Conn write queue (transformed real code)"},
 		Stub: append([]string{"allocators: ownership tracker (the seam is the public mempool.Allocator interface); it never recycles memory, so the pool's own reuse policy is not part of these runs (C20 covers it)", "transport: in-memory connections with write-failure injection (stream scenarios), simulated kernel (e2e scenarios)"}, stubCommon...),
 		Assumptions: append([]string{"leaks (buffers never returned) are counted as a probe only; the property does not demand their absence",
-			"20% of the e2e cases run over TLS (llib transformed); the TLS buffers llib allocates through its own allocator interface are not tracked"}, assumeCommon...),
+			"20% of the e2e cases run over TLS (llib transformed); its buffers come from Engine.TLSAllocator, which defaults to mempool.DefaultMemPool, i.e. they are tracked too"}, assumeCommon...),
 	},
 	"C20": {
 		World: "stream", Level: "exploration", QuickS: 25, ThoroughS: 600,
